@@ -19,6 +19,12 @@ ObjSort = z3.DeclareSort('Obj')
 BlobSort = z3.DeclareSort('Blob')
 
 
+opaque_eq_str = z3.Function('opaque_eq_str', ObjSort, z3.StringSort(), z3.BoolSort())
+opaque_eq_int = z3.Function('opaque_eq_int', ObjSort, z3.IntSort(), z3.BoolSort())
+opaque_is_none = z3.Function('opaque_is_none', ObjSort, z3.BoolSort())
+opaque_is_true = z3.Function('opaque_is_true', ObjSort, z3.BoolSort())
+
+
 class Value(object):
     shape = '?'
 
@@ -391,7 +397,13 @@ def eq(a, b):
     if isinstance(a, VFunc) and isinstance(b, VFunc):
         return z3.BoolVal(a.kind == b.kind and a.target is b.target)
     if isinstance(a, VOpaque) or isinstance(b, VOpaque):
-        # an opaque value compared with a modelled value: unknown (the opaque one may be a str, an int ...)
+        # an opaque value compared with a modelled value: unknown (the opaque one may be a str, an int ...);
+        # comparisons with literals are functional (the same question gets the same answer)
+        o, x = (a, b) if isinstance(a, VOpaque) else (b, a)
+        if isinstance(x, VStr) and z3.is_string_value(x.t):
+            return opaque_eq_str(o.t, x.t)
+        if isinstance(x, VInt) and z3.is_int_value(x.t):
+            return opaque_eq_int(o.t, x.t)
         return z3.Bool(uid('opaque_eq'))
     # different shapes are never equal in Python (int vs str, tuple vs None ...)
     return z3.BoolVal(False)
